@@ -29,6 +29,8 @@ def run_ops(path, seed, idx, hashseed=None):
         parts = line.split(' ', 1)
         if len(parts) == 2 and parts[0].isdigit():
             out[int(parts[0])] = parts[1]
+        elif len(parts) == 2 and parts[0] == 'CACHE':
+            out['cache'] = parts[1]
     if p.returncode != 0 and not out:
         raise common.Infra('c20_ops failed: ' + p.stderr.decode()[-1500:])
     return out
@@ -36,7 +38,7 @@ def run_ops(path, seed, idx, hashseed=None):
 def history(chk, ctx, rng, tier):
     from concurrent.futures import ThreadPoolExecutor
     path = ctx['scratch'] or ctx['repo']
-    nops = 22
+    nops = 27
     n_seq = 2 if tier == 'quick' else 8
     for s in range(n_seq):
         L = int(rng.integers(2, 41)) if tier == 'thorough' else int(rng.integers(8, 25))
@@ -46,6 +48,9 @@ def history(chk, ctx, rng, tier):
         if s == 0: idx += list(range(nops))
         seed = ctx['seed'] * 100 + s
         together = run_ops(path, seed, idx)
+        chk.l3(('cache-soundness', s))
+        if together.get('cache', 'ok') != 'ok':
+            chk.fail('history:cache-corrupted', 'after the call sequence a memo table holds an entry that differs from a fresh recomputation from its key: %s' % together['cache'], dict(seed=seed, sequence=idx))
         uniq = sorted(set(idx))
         with ThreadPoolExecutor(max_workers=14) as ex:
             alone = list(ex.map(lambda i: run_ops(path, seed, [i]), uniq))
@@ -153,11 +158,18 @@ def l3_layout_and_effects(chk, ctx, rng, tier):
         shape = (int(rng.integers(5, 9)), int(rng.integers(5, 9)))
         base = rng.uniform(0.1, 5, shape)
         ref = {}
-        for lname, arr in layouts(base):
-            fs = S(arr)
+        for lname, arr in layouts(base) + [('C-unmasked-corners', base.copy()), ('C-random-mask', base.copy())]:
+            if lname == 'C-unmasked-corners':
+                fs = S(arr, mask_corners=False)
+            elif lname == 'C-random-mask':
+                fs = S(arr, mask_corners=False); fs.mask = rng.random(shape) < 0.2
+            else:
+                fs = S(arr)
             data = S(rng.poisson(3, shape).astype(float))
             calls = [('fold', lambda fs=fs: fs.fold()), ('project', lambda fs=fs: fs.project([3, 4])), ('marginalize', lambda fs=fs: fs.marginalize([0])),
                      ('S', lambda fs=fs: np.array([fs.S()])), ('pi', lambda fs=fs: np.array([fs.marginalize([1]).pi()])),
+                     ('Watterson_theta', lambda fs=fs: np.array([fs.marginalize([1], mask_corners=False).Watterson_theta()])),
+                     ('S_1d', lambda fs=fs: np.array([fs.marginalize([0], mask_corners=False).S()])),
                      ('Fst', lambda fs=fs: np.array([fs.Fst()])), ('ll_multinom', lambda fs=fs, data=data: np.array([dadi.Inference.ll_multinom(fs, data)])),
                      ('scale', lambda fs=fs: fs * 2.0), ('sample-free', lambda fs=fs: fs.combine_pops([1, 2]))]
             for name, g in calls:
@@ -172,8 +184,8 @@ def l3_layout_and_effects(chk, ctx, rng, tier):
                 if bytes_of(fs) != b0 or bytes_of(data) != d0:
                     chk.fail('Spectrum.%s:mutates' % name, 'Spectrum.%s modified its spectrum argument in place' % name, dict(shape=shape, layout=lname))
                 val = np.ma.filled(np.ma.asarray(r), 0.0)
-                if name == 'll_multinom':
-                    continue      # data differs per layout iteration
+                if name == 'll_multinom' or lname.startswith('C-'):
+                    continue      # data / mask differ for these iterations: only the no-mutation clause applies
                 if name not in ref: ref[name] = val
                 elif not np.allclose(val, ref[name], rtol=1e-11, atol=0):
                     chk.fail('Spectrum.%s:layout' % name, 'Spectrum.%s depends on the memory layout (%s)' % (name, lname), dict(shape=shape, layout=lname))
@@ -283,7 +295,7 @@ def layout_isolated(chk, ctx, tier):
 
 def run(chk, ctx):
     tier = ctx['tier']; rng = common.Rng(ctx['seed'], 'C20')
-    chk.rule = ('(i) random interleavings (length 2-40, repeated calls) of 22 kinds of API calls vs each call in a fresh interpreter, results hashed bit-for-bit; '
+    chk.rule = ('(i) random interleavings (length 2-40, repeated calls) of 27 kinds of API calls vs each call in a fresh interpreter, results hashed bit-for-bit; '
                 '(ii) same sequence under several PYTHONHASHSEED values; (iii) C/F/strided/negatively-strided/transposed layouts of phi and of the grid for every integrator '
                 '(constant and time-dependent drivers, zero and positive duration), from_phi and Spectrum methods; (iv) byte comparison of every array/list argument before/after '
                 'and np.shares_memory(result, argument). non-trivial = distinct (clause, function, layout) keys')
